@@ -88,11 +88,20 @@ def _tables(seed, shard, n):
         else:                 # unequally spaced; narrower range for larger tables keeps values moderate
             half = 48 if npts <= 4 else (16 if npts <= 6 else 10)
             xq = rng.sample(range(-half, half + 1), npts)
+        big = kind > 0.88 and npts <= 4
+        if big:
+            # an ephemeris-like table: abscissae of Julian-Day size (3-4 tabular instants a quarter day to two days apart)
+            h = rng.choice([1, 2, 4, 8])
+            x0 = 4 * rng.choice([2451545, 2448908, 1000000, 2460000]) + rng.randint(0, 3)
+            xq = [x0 + h * j for j in range(max(3, npts))]
+            npts = len(xq)
         rng.shuffle(xq)
         xs = [q / 4.0 for q in xq]
         coefs = None
         dk = rng.random()
-        if dk < 0.6:
+        if big:
+            ys = [10.0 * math.sin((q - x0) / 9.0) + 0.5 * (q - x0) - 1.0 for q in xq]
+        elif dk < 0.6:
             deg = rng.randint(0, npts - 1)
             coefs = [Fraction(rng.randint(-12, 12), 4) for _ in range(deg + 1)]
             if deg >= 1 and coefs[-1] == 0:
@@ -144,7 +153,9 @@ def gen_interp(seed, shard, n):
         # values and derivatives inside the table
         for _ in range(4):
             x = rng.choice([rng.uniform(xmin, xmax), rng.randint(int(xmin * 16), int(xmax * 16)) / 16.0,
-                            xmin, xmax, (xmin + xmax) / 2.0])
+                            xmin, xmax, (xmin + xmax) / 2.0,
+                            # next to a tabulated abscissa, but not on it
+                            rng.choice(xs) + rng.choice([1, -1]) * 10 ** rng.uniform(-9, -5)])
             if not (xmin <= x <= xmax):
                 continue
             ev = dict(held, k="eval", x=fx(x), xf=x)
